@@ -11,3 +11,6 @@ import BalmProofs.Props.C04
 #print axioms Balm.Props.C04.expandBlock_inv
 #print axioms Balm.Props.C04.expandASeeds_inv
 #print axioms Balm.Impl.judgeStrict_iff
+#print axioms Balm.Props.C04.plain_history_grows
+#print axioms Balm.Props.C04.runOp_pres
+#print axioms Balm.Props.C04.expandNode_grows
